@@ -64,6 +64,13 @@ func c12OffendingClass(relay []string) string {
 }
 
 func c12RunCase(v *spemitVec, c *spemitConc) c12Result {
+	s := spemitSP(v, c)
+	return c12Judge(s, v, c, spemitEmit(s, v, c))
+}
+
+// c12Judge decodes one emission (redirect URL, POST form, or - binding "element" - the serialised element)
+// and compares it with what was configured / given.
+func c12Judge(s *saml.ServiceProvider, v *spemitVec, c *spemitConc, e *spemitEmission) c12Result {
 	var res c12Result
 	kb := v.In.Kind + "-" + v.In.Binding
 	rest := strings.TrimPrefix(v.caseID(), kb+":")
@@ -71,8 +78,6 @@ func c12RunCase(v *spemitVec, c *spemitConc) c12Result {
 	add := func(slug, clause string) {
 		raw = append(raw, spemitFinding{Key: "C12:" + kb + ":" + slug + ":" + rest, Clause: clause})
 	}
-	s := spemitSP(v, c)
-	e := spemitEmit(s, v, c)
 	if e.Panic != "" {
 		res.Err = e.Panic
 		add("panic", "creating the message panicked: "+strings.SplitN(e.Panic, "\n", 2)[0])
@@ -89,24 +94,32 @@ func c12RunCase(v *spemitVec, c *spemitConc) c12Result {
 	if v.In.Kind == "logoutresp" {
 		samlName = "SAMLResponse"
 	}
-	endpointBase := idpSLOURL
-	if v.In.Kind == "authn" {
-		endpointBase = idpSSOURL
+	// where the message was sent: the idpURL given to Make* (scheme, host, path; its own query)
+	endpoint := c.DestURL
+	if endpoint == "" { // replay files written before round 3
+		endpoint = spemitEndpoint(spemitLocations[spemitSvc(v.In.Kind)]["first"], c.Query)
 	}
-	endpoint := spemitEndpoint(endpointBase, c.Query)
+	endpointBase, _, _, _ := spemitSplitURL(endpoint)
 	fl := &spemitFlags{}
 	res.Flags = fl
 	var payload []byte
 	var idpReq *http.Request
 	var idpReqErr error
+	delivered := "" // the URL the user agent is sent to, without what the binding added
 
-	if v.In.Binding == "redirect" {
+	if v.In.Binding == "element" {
+		res.Wire = string(e.XML)
+		payload = e.XML
+		fl.NSAML, fl.SamlNamed, fl.RelayRT, fl.Existing, fl.SigParams, fl.SignedExact, fl.Delivered = 1, true, true, true, true, true, true
+	} else if v.In.Binding == "redirect" {
 		res.Wire = e.URL
 		base, rawQuery, _, _ := spemitSplitURL(e.URL)
-		if base != endpointBase {
-			add("endpoint", fmt.Sprintf("redirect goes to %q, the IdP endpoint is %q", base, endpointBase))
+		fl.Delivered = base == endpointBase
+		if !fl.Delivered {
+			add("endpoint", fmt.Sprintf("redirect goes to %q, the message was made for %q", base, endpointBase))
 		}
 		ps := spemitParseQuery(rawQuery)
+		delivered = spemitEndpoint(base, spemitForeignRaw(ps))
 		fl.NSAML = len(spemitNamed(ps, "SAMLRequest")) + len(spemitNamed(ps, "SAMLResponse"))
 		mine := spemitNamed(ps, samlName)
 		fl.SamlNamed = len(mine) == 1
@@ -169,8 +182,11 @@ func c12RunCase(v *spemitVec, c *spemitConc) c12Result {
 		}
 		fl.Existing = f.Action == endpoint
 		if !fl.Existing {
-			add("endpoint", fmt.Sprintf("form action is %q, the IdP endpoint is %q", f.Action, endpoint))
+			add("endpoint", fmt.Sprintf("form action is %q, the message was made for %q", f.Action, endpoint))
 		}
+		actionBase, _, _, _ := spemitSplitURL(f.Action)
+		fl.Delivered = actionBase == endpointBase
+		delivered = f.Action
 		if !strings.EqualFold(f.Method, "post") {
 			add("form", "form method is "+f.Method)
 		}
@@ -266,8 +282,9 @@ func c12RunCase(v *spemitVec, c *spemitConc) c12Result {
 		}
 	}
 
-	// this library's IdP must parse and validate every AuthnRequest
-	if v.In.Kind == "authn" {
+	// this library's IdP - the one that serves the URL the user agent is sent to - must parse and validate
+	// every AuthnRequest
+	if v.In.Kind == "authn" && v.In.Binding != "element" {
 		idp := &spemitIdpFlags{}
 		res.Idp = idp
 		switch {
@@ -279,8 +296,14 @@ func c12RunCase(v *spemitVec, c *spemitConc) c12Result {
 				add("metadata", "SP metadata does not survive an XML round trip: "+fmt.Sprint(err))
 				break
 			}
-			r := spemitFeedIdP(endpoint, spMD, idpReq)
+			ssoURL, perr := url.Parse(delivered)
+			if perr != nil {
+				add("idp-rejects", fmt.Sprintf("the emitted URL %q does not parse: %v", delivered, perr))
+				break
+			}
+			r := spemitFeedIdP(*ssoURL, spMD, idpReq)
 			idp.RelayRT = r.RelayState == c.Relay
+			idp.DestOK = r.Panic == "" && r.ParseErr == nil && r.ValidateErr == nil
 			switch {
 			case r.Panic != "":
 				add("idp-rejects", "the IdP panicked on the request: "+strings.SplitN(r.Panic, "\n", 2)[0])
@@ -354,7 +377,9 @@ func c12Unexplained(r *c12Result, req, pin *spemitPred) []string {
 	b("existing", o.Existing, q.Existing, p.Existing)
 	b("sigParams", o.SigParams, q.SigParams, p.SigParams)
 	b("signedExact", o.SignedExact, q.SignedExact, p.SignedExact)
+	b("delivered", o.Delivered, q.Delivered, p.Delivered)
 	if r.Idp != nil && req.Idp != nil && pin.Idp != nil {
+		b("idp.destOK", r.Idp.DestOK, req.Idp.DestOK, pin.Idp.DestOK)
 		b("idp.relayRT", r.Idp.RelayRT, req.Idp.RelayRT, pin.Idp.RelayRT)
 		b("idp.payload", r.Idp.Payload, req.Idp.Payload, pin.Idp.Payload)
 	}
@@ -364,7 +389,7 @@ func c12Unexplained(r *c12Result, req, pin *spemitPred) []string {
 func TestC12(t *testing.T) {
 	rep := NewReport("C12")
 	defer rep.Finish(t)
-	rep.Rule = "every terminal state of spec/SPEmit.tla (relay-state and name-ID class strings over 12 character classes plus length classes, x endpoint query x kind x binding x signing, and the configuration family) is concretised with random representatives, emitted by the real Make*/Redirect/Post functions and decoded by an independent receiver (hand-written query parser, HTML tokenizer, inflate, XML); every AuthnRequest is fed to the real IdP; creations under a counting RandReader are logged and validated by SPEmitTrace.tla; non-trivial = class MustAccept"
+	rep.Rule = "every terminal state of spec/SPEmit.tla (relay-state and name-ID class strings over 12 character classes plus length classes, x endpoint query x kind x binding x signing, and the configuration family) is concretised with random representatives, emitted by the real Make*/Redirect/Post functions and decoded by an independent receiver (hand-written query parser, HTML tokenizer, inflate, XML); every AuthnRequest is fed to the real IdP; every sequence of MaxLen render calls on ONE message value from spec/SPEmitRenderHistory.tla (AuthnRequest: Redirect, Post, Element; LogoutRequest: Redirect, Post, Element, Bytes, Deflate; LogoutResponse: Redirect, Post, Element; value built for POST with signing, for redirect with signing, unsigned; made for the metadata's first location, another location or a URL outside the metadata) is replayed and every emission decoded and compared like a stateless case; creations under a counting RandReader are logged and validated by SPEmitTrace.tla; non-trivial = class MustAccept"
 	rep.Assume("URL parsing of the receiver: fragment cut at the first '#', pairs split on '&' and the first '=', strict percent-decoding with '+' as space; raw characters outside RFC 3986 (space, quotes, non-ASCII) are passed through as lenient receivers do")
 	rep.Assume("the deterministic RandReader stream is SHA-256 in counter mode; distinctness of IDs is judged on that stream and on crypto/rand")
 	lines := loadLines(t, "vectors.ndjson")
@@ -435,7 +460,7 @@ func TestC12(t *testing.T) {
 	}
 	rep.Extra["c12_cases_by_family"] = cover
 	rep.Extra["c12_distinct_ids"] = len(seenIDs)
-	for _, need := range []string{"relay/authn-redirect", "relay/authn-post", "relay/logoutreq-redirect", "relay/logoutreq-post",
+	for _, need := range []string{"dest/authn-redirect", "dest/authn-post", "dest/logoutreq-redirect", "dest/logoutresp-post", "relay/authn-redirect", "relay/authn-post", "relay/logoutreq-redirect", "relay/logoutreq-post",
 		"relay/logoutresp-redirect", "relay/logoutresp-post", "nameid/logoutreq-redirect", "config/authn-redirect"} {
 		if cover[need] == 0 {
 			rep.Break("vacuous: no cases for %s", need)
@@ -444,6 +469,8 @@ func TestC12(t *testing.T) {
 	if rep.Classes["MustAccept"] == 0 {
 		rep.Break("vacuous: no MustAccept vectors")
 	}
+	// histories of render calls on one MESSAGE value (spec/SPEmitRenderHistory.tla)
+	c12RenderHistories(t, rep)
 	c12Trace(t, rep)
 }
 
